@@ -15,7 +15,7 @@ PROPS = {
     "C01": dict(
         title="Civil calendar facts are exactly the proleptic Gregorian calendar",
         verus=["itime", ("itime", "_static", STATIC)],
-        kani_quick=[],
+        kani_quick=["c01_civil"],
         kani_thorough=[],
         design_ref="DESIGN.md section 4, C01",
     ),
@@ -50,6 +50,24 @@ PROPS = {
         kani_quick=[], kani_thorough=[],
         design_ref="DESIGN.md section 4, C10",
     ),
+    "C12": dict(
+        title="Span and SignedDuration are faithful value types with enforced limits",
+        verus=["sdur"],
+        kani_quick=[], kani_thorough=[],
+        design_ref="DESIGN.md section 4, C12",
+    ),
+    "C06": dict(
+        title="Zoned arithmetic is DST-aware: calendar units on wall clock, time units exact",
+        verus=["zoned"],
+        kani_quick=[], kani_thorough=[],
+        design_ref="DESIGN.md section 4, C06",
+    ),
+    "C13": dict(
+        title="Every Zoned value is internally consistent with its time zone",
+        verus=["zoned"],
+        kani_quick=[], kani_thorough=[],
+        design_ref="DESIGN.md section 4, C13",
+    ),
 }
 
 NOT_APPLICABLE = {
@@ -59,4 +77,4 @@ NOT_APPLICABLE = {
 
 # properties with a design but no committed check yet (kept current as the build proceeds)
 NOT_YET = {p: "check not built yet in this session (design in DESIGN.md section 4); not claimed" for p in
-           ["C05", "C06", "C07", "C08", "C09", "C11", "C12", "C13", "C16", "C17", "C18", "C20"]}
+           ["C05", "C07", "C08", "C09", "C11", "C16", "C17", "C18", "C20"]}
